@@ -168,7 +168,11 @@ def _margin_runner(kernel, tier, params, perturb):
     for base in list(lims):
         lims.update({base - 1, base + 1, base + 0.5})
     if tier == "thorough":
-        lims.update({1.0, 1.5, 2.0, 3.0, 10.0, 100.0, 1000.0, 1023.0, 0.5, 1.25, 99.9, 200.1})
+        # dyadic limits only (the class K1 covers): for a limit with a full 53-bit significand such as
+        # 200.1 the binary64 comparison IS the specification (2001/10 rounds onto the limit itself),
+        # so agreement with the exact rational is not something the property asks for
+        lims.update({1.0, 1.5, 2.0, 3.0, 10.0, 100.0, 1000.0, 1023.0, 0.5, 1.25, 99.875, 200.125,
+                     3.00390625, 511.99609375})
     size_bits = params.get("size_bits", 40)
     stats = {"paths": 0, "queries": 0, "q_unsat": 0, "q_sat": 0, "q_unknown": 0,
              "solver_s": 0.0, "paths_with_require": 0, "decisions": 0, "checks": 0}
@@ -473,7 +477,8 @@ KERNELS = [
                         "int/int division modelled as exact rational division; K1m discharges the rounding margin"],
            outside=["forged central directories in real ZIP bytes (zipfile's parsing): the predicate is "
                     "checked on whatever infolist() reports",
-                    "ratio limits that are not dyadic rationals m/2^k with k in the listed set, or >= 1024"],
+                    "ratio limits that are not dyadic rationals m/2^k with k in the listed set, or >= 1024 "
+                    "(for a limit with a full 53-bit significand the binary64 comparison is the specification)"],
            symbolic=["file_size_i, compress_size_i in [0,2^40)", "is_dir_i", "n_entries",
                      "max_entries, max_total, max_single", "both ratio limits (m/2^k, m symbolic)"],
            timeout={"quick": 240, "thorough": 3000}),
